@@ -66,7 +66,7 @@ namespace hist {
 static std::string workdir;
 static std::string mode_ = "C03";       // which property's driver this is (C04: delete report)
 static bool read_only = false;
-static std::vector<std::string> last_raw;      // C08: the raw dump (everything but updated_at) after the previous line
+static std::vector<std::string> last_raw;      // C08: the raw dump (everything but updated_at) taken before a call that writes data / attributes
 static std::vector<std::string> raw_at_open;   // the raw dump right after the last open (C02: a read-only session changes nothing)
 static nix::File file;
 static int file_serial = 0;
@@ -1464,7 +1464,7 @@ static void reset() {
     read_only = false;
     raw_at_open.clear();
     last_dump = dump();
-    last_raw = mode_ == "C08" ? rawdump(file, false) : std::vector<std::string>();
+    last_raw.clear();
 }
 
 static std::string tail_of(const std::string &before, const std::string &now) {
@@ -1506,7 +1506,6 @@ static std::string answer(const std::vector<std::string> &t) {
         }
         std::vector<std::string> raw_after = rawdump(file);
         raw_at_open = raw_after;
-        if (mode_ == "C08") last_raw = rawdump(file, false);
         if (raw_after != raw_before && same) { same = false; diff = raw_diff(raw_before, raw_after); }
         std::string before = last_dump;
         refresh_liveness(true);
@@ -1515,6 +1514,13 @@ static std::string answer(const std::vector<std::string> &t) {
     }
     std::string head;
     bool maybe_deleted = false;
+    if (mode_ == "C08") {
+        static const std::set<std::string> writes = {"wrowbad", "wrow", "frows", "wdata", "sdata", "adata", "setlabel", "setunit", "setorigin", "setpoly",
+            "punit", "puncert", "setvals", "dimset", "dim", "deldims", "setrepo", "forcecreated", "settpos", "settext", "setunits", "setextent",
+            "setdef", "settype", "setlt", "touchupd"};
+        last_raw.clear();
+        if (writes.count(c)) last_raw = rawdump(file, false);
+    }
     try {
         head = "OK " + do_line(t, maybe_deleted);
         // bookkeeping of possible link targets (see arg())
@@ -1541,17 +1547,19 @@ static std::string answer(const std::vector<std::string> &t) {
         refresh_liveness(false);
         if (mode_ == "C04") head += delete_report(before, last_dump, was_alive);
     } else last_dump = dump();
-    if (mode_ == "C08") {
+    if (mode_ == "C08" && !last_raw.empty()) {
         // a rejected call leaves no trace in ANYTHING the API shows: data, cells, labels, descriptors ... (the raw dump)
-        std::vector<std::string> raw_now = rawdump(file, false);
         bool rejected = head.compare(0, 4, "ERR ") == 0 && head.compare(0, 12, "ERR driver::") != 0;
-        if (rejected && !last_raw.empty() && raw_now != last_raw && before == last_dump) {
-            std::string d = raw_diff(last_raw, raw_now);
-            last_raw = raw_now;
-            char buf[64]; std::snprintf(buf, sizeof buf, " t=1 h=%08x", fnv(last_dump));
-            return head + " rawtrace=" + d + buf;
+        if (rejected && before == last_dump) {
+            std::vector<std::string> raw_now = rawdump(file, false);
+            if (raw_now != last_raw) {
+                std::string d = raw_diff(last_raw, raw_now);
+                char buf[64]; std::snprintf(buf, sizeof buf, " t=1 h=%08x", fnv(last_dump));
+                last_raw.clear();
+                return head + " rawtrace=" + d + buf;
+            }
         }
-        last_raw = raw_now;
+        last_raw.clear();
     }
     return head + tail_of(before, last_dump);
 }
